@@ -453,8 +453,12 @@ class Message:
             if len(next_block.payload) == block1.size:
                 pass
             elif (
-                block1.size_exponent == 7 and len(next_block.payload) % block1.size == 0
+                block1.size_exponent == 7
+                and len(next_block.payload) % block1.size == 0
+                and len(next_block.payload) > 0
             ):
+                # BERT: one or more whole blocks (but not none: the same block
+                # number could then be sent again and again)
                 pass
             else:
                 raise error.BadRequest("Payload size does not match Block1")
